@@ -26,6 +26,9 @@ type call struct {
 	Code    byte
 	Dur     time.Duration
 	Confirm bool
+	// Kept is the key object itself as the served agent received it (an agent keeps what it is given: the shim
+	// stores hardware certificates, a keyring stores added keys); Blob is its encoding at the time of the call.
+	Kept ssh.PublicKey
 }
 
 // stubAgent implements yubiagent.YubiAgent. Results are scripted: the n-th call
@@ -64,7 +67,7 @@ func (s *stubAgent) Sign(key ssh.PublicKey, data []byte) (*ssh.Signature, error)
 }
 
 func (s *stubAgent) SignWithFlags(key ssh.PublicKey, data []byte, flags agent.SignatureFlags) (*ssh.Signature, error) {
-	if err := s.rec(call{Op: "sign", Blob: key.Marshal(), Data: bytes.Clone(data), Flags: uint32(flags)}); err != nil {
+	if err := s.rec(call{Op: "sign", Blob: key.Marshal(), Data: bytes.Clone(data), Flags: uint32(flags), Kept: key}); err != nil {
 		return nil, err
 	}
 	return s.sig, nil
@@ -72,11 +75,15 @@ func (s *stubAgent) SignWithFlags(key ssh.PublicKey, data []byte, flags agent.Si
 
 func (s *stubAgent) Add(key agent.AddedKey) error {
 	k := key
-	return s.rec(call{Op: "add", Added: &k, Comment: key.Comment})
+	c := call{Op: "add", Added: &k, Comment: key.Comment}
+	if key.Certificate != nil {
+		c.Kept, c.Blob = key.Certificate, key.Certificate.Marshal()
+	}
+	return s.rec(c)
 }
 
 func (s *stubAgent) Remove(key ssh.PublicKey) error {
-	return s.rec(call{Op: "remove", Blob: key.Marshal()})
+	return s.rec(call{Op: "remove", Blob: key.Marshal(), Kept: key})
 }
 
 func (s *stubAgent) RemoveAll() error { return s.rec(call{Op: "removeall"}) }
@@ -115,7 +122,7 @@ func (s *stubAgent) AddHardCert(key ssh.PublicKey, comment string) error {
 	if key != nil {
 		blob = key.Marshal()
 	}
-	return s.rec(call{Op: "addhardcert", Blob: blob, Comment: comment})
+	return s.rec(call{Op: "addhardcert", Blob: blob, Comment: comment, Kept: key})
 }
 
 func (s *stubAgent) Wait(code byte) error { return s.rec(call{Op: "wait", Code: code}) }
